@@ -5,11 +5,12 @@ package accumulation
 //   L1  module at /m       (files /m/q/q.go, /m/p/p.go),             tool started in /m
 //   L2  module at /srv/x/m (files /srv/x/m/q/q.go, /srv/x/m/p/p.go), tool started in /srv/x/m      - relocated
 //   L3  module at /m,                                                 tool started in /m/p          - other cwd
+//   L4  module at /m,                                                 tool started in /m/q          - the dependency's directory
 // The working directory is what tokenhelper captured at start-up (set through an export helper); file names
 // reach NilAway through the file set exactly as a driver would register them.
 //   C18.X1  L2 reports exactly what L1 reports: same number of diagnostics, same lines, byte-identical messages
 //           (all printed paths are relative to the working directory, which moved with the module)
-//   C18.X2  L3 reports the same number of diagnostics on the same lines of the same files (paths differ by prefix)
+//   C18.X2  L3 and L4 report the same positions (file, line, column) and the same message texts
 //           - in particular every cross-package flow of L1 is still found when dependency and importer are
 //           analysed with a working directory that is not the module root
 
@@ -30,17 +31,21 @@ func p18Run(root, cwd, dep, src string) ([]string, string, bool) {
 	tokenhelper.VerifSetCwd(cwd)
 	rq, facts := pipeAnalysePkg("m/q", root+"/q/q.go", dep, nil)
 	rp, _ := pipeAnalysePkg("m/p", root+"/p/p.go", src, []pipeDep{{path: "m/q", file: root + "/q/q.go", src: dep, facts: facts}})
-	var places []string
+	var places, texts []string
 	msgs := ""
 	ok := rq.panicked == "" && rp.panicked == "" && len(rq.funcErrs) == 0 && len(rp.funcErrs) == 0
 	for _, r := range []pipeResult{rq, rp} {
 		for _, d := range r.diags {
 			pos := r.fset.Position(d.Pos)
-			places = append(places, filepath.Base(pos.Filename)+":"+strconv.Itoa(pos.Line))
-			msgs += d.Message + "\n"
+			places = append(places, filepath.Base(pos.Filename)+":"+strconv.Itoa(pos.Line)+":"+strconv.Itoa(pos.Column))
+			texts = append(texts, d.Message)
 		}
 	}
 	sort.Strings(places)
+	// the SET of diagnostics is what the property is about: the order in which a driver prints them follows the
+	// relativised file names and does change with the start directory
+	sort.Strings(texts)
+	msgs = strings.Join(texts, "\n")
 	return places, msgs, ok
 }
 
@@ -68,11 +73,14 @@ func Harness_P18() {
 	p1, m1, ok1 := p18Run("/m", "/m", dep, src)
 	p2, m2, ok2 := p18Run("/srv/x/m", "/srv/x/m", dep, src)
 	p3, m3, ok3 := p18Run("/m", "/m/p", dep, src)
+	p4, m4, ok4 := p18Run("/m", "/m/q", dep, src)
 	tokenhelper.VerifSetCwd("/m")
 	ndObserveStr("messages_L1", m1)
 	ndObserveStr("messages_L3", m3)
-	ndAssert("C18.X0.no_internal_failure", ok1 && ok2 && ok3)
+	ndAssert("C18.X0.no_internal_failure", ok1 && ok2 && ok3 && ok4)
 	ndAssert("C18.X1.relocated_module_reports_the_same_places", strings.Join(p1, ",") == strings.Join(p2, ","))
 	ndAssert("C18.X1.relocated_module_prints_byte_identical_messages", m1 == m2)
-	ndAssert("C18.X2.other_working_directory_reports_the_same_places", strings.Join(p1, ",") == strings.Join(p3, ","))
+	ndAssert("C18.X2.other_working_directory_reports_the_same_places", strings.Join(p1, ",") == strings.Join(p3, ",") && strings.Join(p1, ",") == strings.Join(p4, ","))
+	// the texts name files by the last directory levels of their absolute names, so they do not depend on the start directory either
+	ndAssert("C18.X2.other_working_directory_prints_the_same_messages", m1 == m3 && m1 == m4)
 }
